@@ -91,6 +91,10 @@ func TestVerifC01(t *testing.T) {
 		rep.Obs("reverse-order-process", 1)
 	}
 	for ci, hp := range seeds {
+		// the services lines without prefix come last and are compared after everything else
+		// (the unchanged code panics on them, which ends a history)
+		prefixLess := hp.Params.PrefixLess
+		hp.Params.PrefixLess = false
 		hist := verifgen.New(hp.Seed, hp.Params).History()
 		hpw := hp
 		hpw.Params.Commands = nil
@@ -128,11 +132,13 @@ func TestVerifC01(t *testing.T) {
 			panicked := false
 			for k, srv := range srvs {
 				rs, pan := verifApplyCaught(srv, e)
-				if pan != nil {
-					panicked = true
-					break
-				}
 				c := canonReplies(rs)
+				if pan != nil {
+					// a real node dies here; what remains to compare is that every
+					// instance dies at this entry, in the same place
+					panicked = true
+					c = "PANIC at " + pan.Site
+				}
 				if k == 0 {
 					first, firstR = c, rs
 					continue
@@ -146,6 +152,10 @@ func TestVerifC01(t *testing.T) {
 				}
 			}
 			if panicked || diverged {
+				if panicked && !diverged {
+					rep.Obs("histories-ending-in-a-panic-on-every-instance", 1)
+				}
+				diverged = true // nothing after a panic is compared
 				break
 			}
 			h.Write([]byte(first))
@@ -182,6 +192,36 @@ func TestVerifC01(t *testing.T) {
 			}
 			h.Write([]byte(v0))
 			digests[fmt.Sprint(hp.Seed)] = hex.EncodeToString(h.Sum(nil))[:24]
+		}
+		if !diverged && prefixLess {
+			plP := hp.Params
+			plP.PrefixLess = true
+			plHist := verifgen.New(hp.Seed, plP).History()
+			for idx := len(hist); idx < len(plHist) && !diverged; idx++ {
+				e := &plHist[idx]
+				var first string
+				for k, srv := range srvs {
+					rs, pan := verifApplyCaught(srv, e)
+					c := canonReplies(rs)
+					if pan != nil {
+						c = "PANIC at " + pan.Site
+					}
+					if k == 0 {
+						first = c
+						continue
+					}
+					if c != first {
+						plw := hpw
+						plw.Params.PrefixLess = true
+						rep.Violation("C01", "diverge:output:"+e.Cmd+":"+e.Role,
+							fmt.Sprintf("entry %d %.80q (services line without prefix): instance 0 and instance %d of the same process disagree:\n  A=%.500s\n  B=%.500s", e.Id, e.Data, k, first, c),
+							map[string]interface{}{"gen": plw, "entry_index": idx, "entry": e})
+						diverged = true
+						break
+					}
+				}
+				rep.Obs("prefix-less-services-lines-compared", 1)
+			}
 		}
 		if ci == 0 {
 			rep.Sample(map[string]interface{}{"seed": hp.Seed, "entries": len(hist), "instances": K, "first_lines": []string{hist[0].Data[:min(60, len(hist[0].Data))], hist[len(hist)/2].Data}})
